@@ -1010,6 +1010,45 @@ func Generate(r *rand.Rand, budget int) Program {
 		r.Shuffle(len(battery), func(i, j int) { battery[i], battery[j] = battery[j], battery[i] })
 		stmts = append(stmts, battery[:3+r.Intn(3)]...)
 	}
+	// every way of leaving a `with` body (12.10: the lexical environment is restored "whether normally or by some
+	// form of abrupt completion or exception"): throw caught outside, break and continue of an enclosing loop, break
+	// to a label, throw from a call made inside; afterwards an identifier named like a property of the subject must
+	// resolve to the variable again, and an assignment to it must not reach the subject.  Always executed, a
+	// quarter of the programs.
+	if r.Intn(4) == 0 {
+		g.Stats["with-exit"]++
+		n := 40 + r.Intn(9)
+		subj := fmt.Sprintf("{ g0: %d, g1: %d }", n, n+1)
+		csubj := fmt.Sprintf("(XObj [(%s, XLit (WNum %d)); (%s, XLit (WNum %d))])", cstr("g0"), n, cstr("g1"), n+1)
+		stmts = append(stmts, node{"var wx = " + subj + ";", fmt.Sprintf("(JVar %s (Some %s))", cstr("wx"), csubj)})
+		wx := "(XVar " + cstr("wx") + ")"
+		after := []node{
+			{"log(g0);", "(JExpr (XLog (XVar " + cstr("g0") + ")))"},
+			{"g1 = 7;", "(JExpr (XAssign " + cstr("g1") + " (XLit (WNum 7))))"},
+			{"log(wx.g1);", "(JExpr (XLog (XGet " + wx + " " + cstr("g1") + ")))"},
+			{"log(g1);", "(JExpr (XLog (XVar " + cstr("g1") + ")))"},
+		}
+		var exit []node
+		switch r.Intn(5) {
+		case 0:
+			exit = []node{{"try { with (wx) { log(g0); throw g1; } } catch (ex) { log(ex); }",
+				fmt.Sprintf("(JTry [JWith %s (JBlock [JExpr (XLog (XVar %s)); JThrow (XVar %s)])] (Some (%s, [JExpr (XLog (XVar %s))])) None)", wx, cstr("g0"), cstr("g1"), cstr("ex"), cstr("ex"))}}
+		case 1:
+			exit = []node{{"i3 = 0;", fmt.Sprintf("(JExpr (XAssign %s (XLit (WNum 0))))", cstr("i3"))},
+				{"while (i3++ < 2) { with (wx) { log(g0); break; } }", fmt.Sprintf("(JWhile (XBin PLt (XPostInc %s) (XLit (WNum 2))) (JBlock [JWith %s (JBlock [JExpr (XLog (XVar %s)); JBreak 0%%nat])]))", cstr("i3"), wx, cstr("g0"))}}
+		case 2:
+			exit = []node{{"i3 = 0;", fmt.Sprintf("(JExpr (XAssign %s (XLit (WNum 0))))", cstr("i3"))},
+				{"while (i3++ < 2) { with (wx) { log(g0); continue; } }", fmt.Sprintf("(JWhile (XBin PLt (XPostInc %s) (XLit (WNum 2))) (JBlock [JWith %s (JBlock [JExpr (XLog (XVar %s)); JContinue 0%%nat])]))", cstr("i3"), wx, cstr("g0"))}}
+		case 3:
+			exit = []node{{"L9: { with (wx) { log(g0); break L9; } }",
+				fmt.Sprintf("(JLabelled 9%%nat (JBlock [JWith %s (JBlock [JExpr (XLog (XVar %s)); JBreak 9%%nat])]))", wx, cstr("g0"))}}
+		default:
+			exit = []node{{"try { with (wx) { log(g0); nowhere(); } } catch (ex) { log(ex); }",
+				fmt.Sprintf("(JTry [JWith %s (JBlock [JExpr (XLog (XVar %s)); JExpr (XCall (XVar %s) [])])] (Some (%s, [JExpr (XLog (XVar %s))])) None)", wx, cstr("g0"), cstr("nowhere"), cstr("ex"), cstr("ex"))}}
+		}
+		stmts = append(stmts, exit...)
+		stmts = append(stmts, after...)
+	}
 	stmts = append(stmts, g.list(top, 3+r.Intn(5), nil, 0, false, "")...)
 	// epilogue: dump the observable global state (half of the programs; the others end on
 	// whatever statement came last, so that the program's completion value is not always log's undefined)
